@@ -22,7 +22,7 @@ def run(tier, seed):
     samples = []
     summ = []
     for name, outlines, oracles in runs:
-        r = outline_check.model_and_replay(name, outlines, oracles, invariants=INV)
+        r = outline_check.model_and_replay(name, outlines, oracles, invariants=INV, medium='none')      # no checkpoints: aliased step names (outline_real.build_workchain)
         res = r['tlc']
         states += res.distinct
         gen += res.generated
@@ -73,7 +73,7 @@ def replay(path):
     from .. import outline_real
     rec = json.load(open(path))
     if rec.get('kind') == 'outline-mismatch':
-        got = outline_real.run_outline(rec['outline'], rec['oracle'], crash_at=rec.get('crash_at', ()))
+        got = outline_real.run_outline(rec['outline'], rec['oracle'], crash_at=rec.get('crash_at', ()), medium='none')
         print('outline :', json.dumps(rec['outline']))
         print('oracle  :', rec['oracle'])
         print('expected:', rec['expected_units'], rec['expected_result'])
